@@ -3,6 +3,7 @@ package main
 import (
 	"fmt"
 	"go/types"
+	"regexp"
 	"strconv"
 	"strings"
 
@@ -61,7 +62,10 @@ type Eval struct {
 	probeName, probeOff             string
 	probing                         int
 	allowLocals                     int
+	skolemSet                       map[string]bool
 }
+
+var qNameRe = regexp.MustCompile(`q_[A-Za-z0-9_]*_\d+`)
 
 func (ev *Eval) heap() *Heap {
 	if ev.inOld {
@@ -227,9 +231,29 @@ func (ev *Eval) rv(v EVal) []string {
 	terms := ev.vc.load(*ev.heap(), *v.Addr, v.T)
 	// well-typedness facts about the loaded value (only for closed terms)
 	closed := true
+	onlySkolems := true
 	for _, t := range terms {
 		if strings.Contains(t, "q_") {
 			closed = false
+			for _, nm := range qNameRe.FindAllString(t, -1) {
+				if !ev.skolemSet[nm] {
+					onlySkolems = false
+				}
+			}
+		}
+	}
+	if !closed && onlySkolems {
+		// the term mentions only skolem constants of the obligation being built: its
+		// well-typedness facts become hypotheses local to that obligation
+		ls := ev.vc.L.Leaves(v.T)
+		for i, l := range ls {
+			if i < len(terms) {
+				hb := *ev.heap()
+				if b, ok := ev.vc.root().heapBound[hb.H[l.Sort]]; ok {
+					hb.Alloc = b
+				}
+				ev.hyps = append(ev.hyps, ev.vc.rangeFact(terms[i], l, hb))
+			}
 		}
 	}
 	if closed {
